@@ -342,18 +342,43 @@ func genC07(e *emitter, r *rng, tier string) {
 		for j := 0; j < chain; j++ {
 			b.view()
 		}
-		// traverse every handle (parent and siblings included) by every method, twice
+		// traverse every handle (parent and siblings included) by every method, twice, in a random
+		// order: what a view delivers must not depend on what its parent has already computed
 		for pass := 0; pass < 2; pass++ {
-			for h := range b.handles {
+			order := make([]int, len(b.handles))
+			for i := range order {
+				order[i] = i
+			}
+			for i := len(order) - 1; i > 0; i-- {
+				j := r.intn(i + 1)
+				order[i], order[j] = order[j], order[i]
+			}
+			if pass == 0 && r.coin(50) {
+				// newest view first, on a parent that has computed as little as possible
+				for i, j := 0, len(order)-1; i < j; i, j = i+1, j-1 {
+					order[i], order[j] = j, i
+				}
+				for i := range order {
+					order[i] = len(order) - 1 - i
+				}
+			}
+			for _, h := range order {
+				if h >= len(b.handles) {
+					continue
+				}
 				if b.cheapStart(h) {
-					b.add("fwd:%d:%d", h, 400)
+					if r.coin(50) {
+						b.add("fwd:%d:%d", h, 400)
+					} else {
+						b.add("fwd2:%d:%d", h, 400)
+					}
 				}
 				if b.finiteWork(h) {
 					b.add("back:%d:%d", h, 400)
 				}
-				if pass == 0 && h == len(b.handles)-1 {
-					b.view()
-				}
+			}
+			if pass == 0 {
+				b.view()
 			}
 		}
 		for h := range b.handles {
